@@ -33,6 +33,7 @@ RULE = (
     "Distinct = SHA-1 of (document, variables, events, pattern); non-trivial = >= 3 events with a failing one in the middle, or an "
     "interleaved / alternating consumption pattern."
     " In 30% of the cases a pass-through directive on the schema (on_schema_subscription, forwarding by keyword) wraps the subscription."
+    " 40% of the valid subscriptions are sent again as the very same text with their Boolean variables flipped (other @skip/@include decisions)."
 )
 ASSUMPTIONS = c01.ASSUMPTIONS
 DOC_OPTS = {"max_nodes": 8, "max_frags": 2, "max_sels": 3, "max_depth": 3, "max_ops": 1, "op_types": ["subscription"]}
@@ -285,6 +286,25 @@ def case(c, stats):
             pattern = "plain" if pattern == "alternate" else pattern
             script = [c.int(0, 5) for _ in range(c.int(1, 14))] if pattern == "scheduled" else None
             outcome = run_pattern(c, h, schema, spec, pattern, script)
+        if kind == "valid" and outcome == "ok" and c.maybe(40):
+            # the very same text again with its Boolean variables flipped (other @skip/@include decisions, fresh data)
+            bools = [k for k, v in (spec["variables"] or {}).items() if isinstance(v, bool)]
+            if bools:
+                spec2 = copy.deepcopy(spec)
+                for k in bools:
+                    if c.maybe(70):
+                        spec2["variables"][k] = not spec2["variables"][k]
+                spec2["faults"] = []
+                t2 = Tree(schema, c, spec2["tree"])
+                for nid in spec2["events"]:
+                    if isinstance(nid, int):
+                        Executor(schema, spec2["doc"], RefProvider(t2)).execute(spec2["op"], spec2["variables"], root_value=t2.node(nid))
+                if spec2.get("decoy") is not None:
+                    Executor(schema, spec2["doc"], RefProvider(t2)).execute(spec2["op"], spec2["variables"], root_value=t2.node(spec2["decoy"]))
+                spec2["tree"] = t2.store
+                run_pattern(c, h, schema, spec2, "plain")
+                stats.case({"d": spec2["doc"], "v": spec2["variables"], "e": spec2["events"], "s": schema["types"]}, True, ["same_text_other_variables"],
+                           {"query": print_document(spec2["doc"]).text, "variables": spec2["variables"], "first_variables": spec["variables"]})
         prev = spec if not spec.get("invalid") else prev
         stats.case({"d": spec["doc"], "v": spec["variables"], "e": spec["events"], "f": spec["faults"], "p": pattern, "s": schema["types"]}, is_nontrivial(spec, pattern),
                    ["pattern:" + pattern, "kind:" + kind, "events:%d" % len(spec["events"]), "falsy_event:%s" % any(not isinstance(e, int) for e in spec["events"]), "decoy_initial_value:%s" % (spec.get("decoy") is not None), "outcome:" + str(outcome), "faults:%d" % len(spec["faults"])],
